@@ -57,6 +57,7 @@ impl Property for P {
             symlink: false,
             bg_cleanup: false,
             via_logger,
+            build_variant: 0,
         });
         prop_oneof![8 => rotating, 1 => plain]
             .prop_flat_map(|cfg| {
